@@ -1,8 +1,9 @@
 """C18 -- graph algorithms return what their names promise.
 
 correspondence : raw kernels of graph.h (serial / parallel MIS with replayed weights, MIS colouring,
-                 connected components, BFS order+levels, Bellman-Ford d/m/p) vs Model/KGraph.lean and
-                 Model/KNum.lean, exact integer / rational equality.
+                 connected components, BFS order+levels, Bellman-Ford d/m/p; Jones-Plassmann / LDF colourings
+                 and distance-k parallel MIS with tied integer weights) vs Model/KGraph.lean, Model/ExtGraph.lean
+                 and Model/KNum.lean, exact integer / rational equality.
 search         : public functions of pyamg/graph.py judged by the specification itself (independent
                  Python checkers, SciPy csgraph as a second opinion, and the Lean-proved `checkMIS`).
 """
@@ -21,10 +22,15 @@ META = {
             '(paths, stars, cycles, cliques, isolated pairs, grids, two components, Erdos-Renyi; some with self loops, some '
             'nonsymmetric for the kernel correspondence) up to n = 40; weights dyadic with ties; a case is non-trivial when '
             'the graph has an edge; distinct = distinct (routine, graph, parameters)',
-    'search_only': ['Jones-Plassmann / LDF colourings, distance-k MIS, balanced Bellman-Ford, RCM: specification checkers on the '
-                    'real outputs (no Lean model)'],
+    'search_only': ['balanced Bellman-Ford, RCM: specification checkers on the real outputs (no Lean model)',
+                    'Jones-Plassmann / LDF colourings and distance-k MIS through the public wrappers (random real weights): '
+                    'specification checkers; the kernels themselves are compared exactly with Model/ExtGraph.lean on tied '
+                    'integer weights (theorems coloring_jp_total, coloring_ldf_total, mis_k_total)'],
     'partial': ['rcm: only the wrapper contract (symmetric permutation) is checked'],
-    'assumptions': ['random weights drawn inside the public wrappers are not replayed (their outputs are judged by the spec)'],
+    'assumptions': ['random weights drawn inside the public wrappers are not replayed (their outputs are judged by the spec)',
+                    'maximal_independent_set_k_parallel: theorem mis_k_total needs all weights > -1 (the kernel marks decided '
+                    'nodes with the value -1; a weight <= -1 next to a decided node makes max_iters=-1 loop forever); the '
+                    'generator draws the weights of the unbounded call from {0,1,2}, the wrapper from [0,1)'],
 }
 
 
@@ -226,17 +232,29 @@ def part_a(ctx, graphs, with_variants=True):
             kk = int(rng.integers(1, 4))
             x = np.zeros(n, dtype=np.int32)
             amg_core.maximal_independent_set_k_parallel(n, ap, aj, kk, x, yt, -1)
+            # exact comparison with the Lean model G.misK (theorem mis_k_total is about this model)
+            add(f'ext_mis_k {hdr} {enc_ints(yt)} {kk}', enc_ints(x), 'ext_mis_k')
             ctx.case(key=_key('mis_k_kernel', hdr, kk, yt.tobytes()), nontrivial=has_edge)
             ctx.feat('kernel:mis_k_parallel(tied weights)')
             e = check_mis(adj, x, k=kk)
             if e:
                 ctx.violation(f'maximal_independent_set_k_parallel(k={kk}) with tied weights {yt.tolist()}: {e}; result {x.tolist()}',
                               {'M': Ms.tolist(), 'routine': 'mis_k_kernel', 'k': kk, 'weights': yt.tolist()})
-            for nm, fn in (('jones_plassmann', amg_core.vertex_coloring_jones_plassmann), ('LDF', amg_core.vertex_coloring_LDF)):
-                z = rng.integers(0, 3, size=n).astype(float)
+            if t % 3 == 0:
+                # bounded number of outer iterations, weights that may be <= -1 (the marker value): kernel vs model only
+                yb = rng.integers(-3, 2, size=n).astype(float)
+                mi = int(rng.integers(0, 4))
+                x = np.zeros(n, dtype=np.int32)
+                amg_core.maximal_independent_set_k_parallel(n, ap, aj, kk, x, yb, mi)
+                add(f'ext_mis_k_iters {hdr} {enc_ints(yb)} {kk} {mi}', enc_ints(x), 'ext_mis_k(max_iters)')
+            for nm, fn, op in (('jones_plassmann', amg_core.vertex_coloring_jones_plassmann, 'ext_color_jp'),
+                               ('LDF', amg_core.vertex_coloring_LDF, 'ext_color_ldf')):
+                z = rng.integers(-1 if nm == 'LDF' else 0, 3, size=n).astype(float)
                 z0 = z.copy()
                 x = np.full(n, -5, dtype=np.int32)
-                fn(n, ap, aj, x, z)
+                ret = fn(n, ap, aj, x, z)
+                # exact comparison (colours and returned max colour) with the Lean models G.coloringJP / G.coloringLDF
+                add(f'{op} {hdr} {enc_ints(z0)}', enc_ints(x) + ';' + str(int(ret)), op)
                 ctx.case(key=_key(nm, hdr, z0.tobytes()), nontrivial=has_edge)
                 ctx.feat(f'kernel:coloring_{nm}(tied weights)')
                 e = check_coloring(adj, x)
